@@ -185,6 +185,22 @@ MIPS32 = {
                      asm="addiu $t0, $t0, %lo({t})", attrs=("LO",)),
     "mark": dict(b=_wb(0x24090000), kind="ord", imm16lo=True,
                  asm="addiu $t1, $zero, {imm}"),
+    # (names shared with the other tables; the instructions differ)
+    "push_rax": dict(b=_wb(0x27BDFFF8), kind="ord",
+                     asm="addiu $sp, $sp, -8"),
+    "pop_rax": dict(b=_wb(0x27BD0008), kind="ord", asm="addiu $sp, $sp, 8"),
+    "push_rbx": dict(b=_wb(0xAFA80000), kind="ord", asm="sw $t0, 0($sp)"),
+    "pop_rbx": dict(b=_wb(0x8FA80000), kind="ord", asm="lw $t0, 0($sp)"),
+    "lea_sym": dict(b=_wb(0x3C080000), kind="ord", sym=(0, 2),
+                    asm="lui $t0, %hi({t})", attrs=("HI",)),
+    "mov_sym": dict(b=_wb(0x8D080000), kind="ord", sym=(0, 2),
+                    asm="lw $t0, %lo({t})($t0)", attrs=("LO",)),
+    "jne": dict(b=_wb(0x15000000) + "00000000", kind="jcc", sym=(0, 2),
+                asm="bne $t0, $zero, {t}"),
+    "ret": dict(b=_wb(0x03E00008) + "00000000", kind="ret", asm="jr $ra"),
+    "ud2": dict(b=_wb(0x0000000D), kind="halt", asm="break"),
+    "syscall": dict(b=_wb(0x0000000C), kind="syscall", asm="syscall",
+                    patch=False),
     "call": dict(b=_wb(0x0C000000) + "00000000", kind="call", sym=(0, 3),
                  asm="jal {t}"),
     # direct calls that carry a register operand (bgezal $zero / bltzal)
@@ -243,4 +259,6 @@ def decode_imm(isa, key, data):
         return int.from_bytes(data[off:off + size], "little")
     if e["imm16"]:
         return (int.from_bytes(data[:4], "little") >> 5) & 0xFFFF
+    if e["imm16lo"]:
+        return int.from_bytes(data[:4], "big") & 0x7FFF
     return None
